@@ -58,6 +58,7 @@ class PathReport:
         self.trace: List[int] = []
         self.solver_time = 0.0
         self.note = ""
+        self.concolic = None
 
     def digest(self):
         h = hashlib.sha1(("|".join(self.labels)).encode()).hexdigest()[:10]
@@ -451,6 +452,53 @@ class RuleRun:
                 wit = {"error": repr(e)}
         v.model = None
         rep.obligations.append(Obligation(prop, clause, v, detail=detail, witness=wit))
+        if v.status == "proved" and (len(rep.labels) + sum(ord(c) for c in "".join(ps.labels))) % 5 == 0:
+            self._engine_guards(I, ps, heap, node, make_goal, pc, rep)
+
+    def _engine_guards(self, I, ps, heap, node, make_goal, pc, rep):
+        """Guards against a vacuous / unsound engine, on a sample of the proved paths:
+        (1) canary: the same obligation with the post-value shifted by one must NOT be provable;
+        (2) concolic: a model of the path condition is turned into a concrete tree for the native replay."""
+        try:
+            goal = make_goal({})
+            bad = None
+            # shift: value + 1 / flipped truth of the equation
+            if z3.is_implies(goal):
+                body = goal.arg(1)
+                if z3.is_eq(body) and not z3.is_bool(body.arg(0)):
+                    bad = z3.Implies(goal.arg(0), body.arg(0) == body.arg(1) + 1)
+                elif z3.is_eq(body):
+                    bad = z3.Implies(goal.arg(0), body.arg(0) == z3.Not(body.arg(1)))
+            if bad is not None:
+                axioms = heap.pre_axioms(I)
+                axioms += pow_instances([bad] + axioms + list(ps.pc))
+                c = prove(pc, axioms, bad, timeout_ms=self.timeout_ms)
+                # 'proved' would mean the engine can prove anything on this path (contradictory hypotheses)
+                ok = c.status != "proved"
+                c.model = None
+                if not ok:
+                    # provable only because "both defined" is impossible on this path (e.g. a folded
+                    # division by the literal zero)?  Then the obligation is vacuous, not the engine unsound.
+                    hs = z3.Solver()
+                    hs.set("timeout", 5000)
+                    for c_ in list(pc) + list(axioms):
+                        hs.add(c_)
+                    hs.add(goal.arg(0))
+                    if hs.check() == z3.unsat:
+                        rep.obligations.append(Obligation("ENGINE", "vacuous/never-both-defined", Verdict("proved"), "old and new value are never both defined on this path"))
+                        ok = None
+                if ok is not None:
+                    rep.obligations.append(Obligation("ENGINE", "canary/shifted-value-not-provable", Verdict("proved" if ok else "refuted"), "" if ok else "false obligation was proved: path hypotheses are contradictory"))
+            s = z3.Solver()
+            s.set("timeout", 3000)
+            for c_ in pc:
+                s.add(c_)
+            for a in heap.pre_axioms(I):
+                s.add(a)
+            if s.check() == z3.sat:
+                rep.concolic = witness_from_model(I, heap, node, s.model(), self.cfg)
+        except Exception as e:  # noqa: BLE001  (guards never mask verdicts)
+            rep.note = f"engine guard skipped: {e!r}"
 
     timeout_ms = 10000
     want = None
@@ -775,6 +823,10 @@ def witness_from_model(I, heap: ExprHeap, node: Obj, model, cfg) -> Dict[str, An
                 kind = k
         if kind is None:
             kind = kinds[0]
+        if kind == "FactorialExpression" and len(kinds) > 1:
+            r0 = o.init.get("right")
+            if not (isinstance(r0, Obj) and r0.kinds == frozenset(["ConstantExpression"])):
+                kind = next(k for k in kinds if k != "FactorialExpression")  # WF: factorial of a literal only
         d: Dict[str, Any] = {"kind": kind, "oid": o.oid, "label": o.label}
         materialised = any(f in o.init for f in ("left", "right", "value", "identifier"))
         if kind == "ConstantExpression":
